@@ -459,7 +459,9 @@ End DipCore.
    (class_BaseExcitations.py, after commit e4a0461): two co-dependent attributes;
    check_format_input_vector(allow_None=True) returns None for None, and then BOTH attributes become None *)
 Record exc := { e_pol : option vec; e_mag : option vec }.
-Inductive assign := SetPol (v : option vec) | SetMag (v : option vec).
+(* Observe: any read through the public interface (the two getters, getJ, getM, copy): the getters are plain
+   attribute reads, so an observation leaves the pair unchanged -- a getter with hidden state diverges from this *)
+Inductive assign := SetPol (v : option vec) | SetMag (v : option vec) | Observe.
 
 Definition exc_init : exc := {| e_pol := None; e_mag := None |}.
 
@@ -471,6 +473,7 @@ Definition exc_step (c_mul c_div : F) (s : exc) (a : assign) : exc :=
   | SetMag None => {| e_pol := None; e_mag := None |}
   | SetPol (Some p) => {| e_pol := Some p; e_mag := Some (vdivs p c_div) |}
   | SetPol None => {| e_pol := None; e_mag := None |}
+  | Observe => s
   end.
 
 Definition exc_run (c_mul c_div : F) (s : exc) (h : list assign) : exc :=
